@@ -369,7 +369,11 @@ func repairCase(dir string, W []*wrec, img []byte, intact int, strict bool, what
 	if err := os.WriteFile(src, img, 0o600); err != nil {
 		return verdict{"harness", "", err.Error()}
 	}
-	os.Remove(dst)
+	// as ConsensusState.OnStart does it: the damaged log is COPIED to wal.CORRUPTED and repaired
+	// back into its own, still existing, file
+	if err := os.WriteFile(dst, img, 0o600); err != nil {
+		return verdict{"harness", "", err.Error()}
+	}
 	var rerr error
 	panicked := ""
 	func() {
